@@ -261,7 +261,9 @@ def check_case(ctx, case):
         # (3) from_state: the operation starts from exactly the given state for the named nodes (the others: zero
         # under reset=True, their current state otherwise) - i.e. it gives what overwriting those states by hand and
         # running the plain operation gives. Nodes with hidden memory (K4) are left to the model comparison.
-        if flag is None and fs is not None and not failed and not hidden and op["op"] != "reset":
+        # (one sequence only: in a batch the given state is the start of EVERY sequence, which a single overwrite by hand
+        # does not reproduce - batches are compared with the model)
+        if flag is None and fs is not None and not failed and not hidden and op["op"] != "reset" and op.get("nseq", 1) == 1:
             saved = states_of(b)
             try:
                 for nd, i in b.idx.items():
